@@ -6,11 +6,15 @@
     exponent accumulation stopped at 10000, mantissa < 2^52 for the exact path,
     pow10 table to 22 (+15), the shift/round loops of atofHex).
 
-    MODELLED BY SPECIFICATION, NOT TRANSCRIBED: decimal.floatBits together with
-    decimal.go's Shift / leftShift / rightShift / RoundedInteger — the
-    multiprecision decimal path. It is replaced by [rn_b64] of the exact decimal
-    number [set] stored: at most 800 significant digits, and when non-zero digits
-    were dropped ([trunc]) a sticky digit below the last kept one.
+    MODELLED BY SPECIFICATION HERE: decimal.floatBits together with decimal.go's
+    Shift / leftShift / rightShift / RoundedInteger — the multiprecision decimal
+    path — is [dec_float_bits]: [rn_b64] of the exact decimal number [set] stored
+    (at most 800 significant digits, and when non-zero digits were dropped
+    ([trunc]) a sticky digit below the last kept one).  The statement-by-statement
+    transcription of that code is Model/Decimal.v ([floatBits], [parse_float_code]);
+    Proofs/DecimalEndToEnd.v proves [dec_float_bits_code d = dec_float_bits d] for
+    everything [set] can store and [parse_float_code s = parse_float s] for every
+    text, so this is a verified abbreviation, not an assumption.
     This tree's atof.go has no Eisel-Lemire path (it predates it). *)
 From Perf Require Import Base.Bytes Base.B64 Base.DecSpec Model.Atoi.
 Local Open Scope Z_scope.
@@ -282,7 +286,7 @@ Definition dec_set_gen (fixed : bool) (s : bytes) : option dec :=
 
 Definition dec_set : bytes -> option dec := dec_set_gen true.
 
-(** decimal.floatBits, BY SPECIFICATION: the stored number is
+(** decimal.floatBits, BY SPECIFICATION (= the transcription, Proofs/DecimalEndToEnd.v): the stored number is
     0.d1 d2 ... d_nd * 10^dp (plus something below the last digit when [trunc]);
     the two "obvious overflow/underflow" exits are the code's. *)
 Definition dec_float_bits (d : dec) : fres :=
